@@ -988,6 +988,67 @@ def _normalise(tree):
 # --------------------------------------------------------------------------
 # Program model
 # --------------------------------------------------------------------------
+def _detached(e):
+    """A copy of an expression without the _parent links of its tree."""
+    return ast.parse(ast.unparse(e), mode="eval").body
+
+
+def _inline_new_class_constants(tree, known, numeric, par):
+    """``_MAX = 126`` in a class body (a name the class of the reference tree
+    did not have, bound once, never stored as an attribute anywhere in the
+    module) reads as 126 where the methods of the class say ``self._MAX`` /
+    ``cls._MAX`` / ``Class._MAX``."""
+    stored = {n.attr for n in ast.walk(tree) if isinstance(n, ast.Attribute)
+              and isinstance(n.ctx, (ast.Store, ast.Del))}
+
+    def qual(c):
+        q = [c.name]
+        x = par.get(id(c))
+        while x is not None and not isinstance(x, ast.Module):
+            if isinstance(x, (ast.ClassDef, ast.FunctionDef,
+                              ast.AsyncFunctionDef)):
+                q.append(x.name)
+            x = par.get(id(x))
+        return ".".join(reversed(q))
+    for cls in [c for c in ast.walk(tree) if isinstance(c, ast.ClassDef)]:
+        cq = qual(cls)
+        if cq not in known:
+            continue            # a new class: read as it stands
+        count = {}
+        for st in cls.body:
+            if isinstance(st, (ast.FunctionDef, ast.AsyncFunctionDef,
+                               ast.ClassDef)):
+                count[st.name] = count.get(st.name, 0) + 1
+                continue
+            for x in ast.walk(st):
+                if isinstance(x, ast.Name) and isinstance(
+                        x.ctx, (ast.Store, ast.Del)):
+                    count[x.id] = count.get(x.id, 0) + 1
+        use = {}
+        for st in cls.body:
+            if isinstance(st, ast.Assign) and len(st.targets) == 1 and \
+                    isinstance(st.targets[0], ast.Name) and \
+                    count.get(st.targets[0].id) == 1 and \
+                    cq + "." + st.targets[0].id not in known and \
+                    st.targets[0].id not in stored and numeric(st.value):
+                use[st.targets[0].id] = _detached(st.value)
+        if not use:
+            continue
+
+        class A(ast.NodeTransformer):
+            def visit_Attribute(self, n):
+                self.generic_visit(n)
+                if isinstance(n.ctx, ast.Load) and n.attr in use and \
+                        isinstance(n.value, ast.Name) and \
+                        n.value.id in ("self", "cls", cls.name):
+                    return ast.copy_location(_detached(use[n.attr]), n)
+                return n
+        for st in cls.body:
+            if isinstance(st, (ast.FunctionDef, ast.AsyncFunctionDef)):
+                st.body = [A().visit(s_) for s_ in st.body]
+    ast.fix_missing_locations(tree)
+
+
 def _inline_new_constants(tree, modname):
     """A module-level name the reference tree did not have, bound once to a
     number (literal / arithmetic over literals), reads as that number in the
@@ -1039,7 +1100,7 @@ def _inline_new_constants(tree, modname):
             if not (isinstance(x, ast.Name) and x.id == nm and
                     isinstance(x.ctx, ast.Load)):
                 continue
-            p = getattr(x, "_parent", None)
+            p = par.get(id(x))
             if isinstance(p, (ast.For, ast.comprehension)) and p.iter is x:
                 continue
             if isinstance(p, ast.Compare) and x in p.comparators and all(
@@ -1056,13 +1117,14 @@ def _inline_new_constants(tree, modname):
                 continue
             if isinstance(p, ast.Attribute) and p.value is x and p.attr in (
                     "get", "items", "keys", "values", "index", "count") \
-                    and isinstance(getattr(p, "_parent", None), ast.Call):
+                    and isinstance(par.get(id(p)), ast.Call):
                 continue
             return False
         return True
+    par = {}
     for node in ast.walk(tree):
         for child in ast.iter_child_nodes(node):
-            child._parent = node
+            par[id(child)] = node
     consts = {}
     for st in tree.body:
         if isinstance(st, ast.Assign) and len(st.targets) == 1 and \
@@ -1074,6 +1136,7 @@ def _inline_new_constants(tree, modname):
             # (a detached copy: the nodes of the tree carry _parent links)
             consts[st.targets[0].id] = ast.parse(
                 ast.unparse(st.value), mode="eval").body
+    _inline_new_class_constants(tree, known, numeric, par)
     if not consts:
         return
     for n in ast.walk(tree):
@@ -1098,7 +1161,7 @@ def _inline_new_constants(tree, modname):
         class R(ast.NodeTransformer):
             def visit_Name(self, n):
                 if isinstance(n.ctx, ast.Load) and n.id in use:
-                    new = _copy.deepcopy(use[n.id])
+                    new = _detached(use[n.id])
                     for y in ast.walk(new):
                         ast.copy_location(y, n)
                     return new
@@ -1346,7 +1409,7 @@ def _specialise_defaults(tree, modname, veto=()):
         class R(ast.NodeTransformer):
             def visit_Name(self, n):
                 if isinstance(n.ctx, ast.Load) and n.id in use:
-                    return ast.copy_location(_copy.deepcopy(use[n.id]), n)
+                    return ast.copy_location(_detached(use[n.id]), n)
                 return n
 
             def visit_Lambda(self, n):
@@ -1392,7 +1455,7 @@ def _specialise_defaults(tree, modname, veto=()):
                         isinstance(n.value, ast.Name) and \
                         n.value.id in ("self", "cls"):
                     return ast.copy_location(
-                        _copy.deepcopy(attr_const[n.attr]), n)
+                        _detached(attr_const[n.attr]), n)
                 return n
         A().visit(tree)
         done["<attributes>"] = sorted(attr_const)
